@@ -26,10 +26,16 @@ def kinds_label(kinds):
 
 def exclusive(a: Ev, b: Ev) -> bool:
     """Two events lie in mutually exclusive branches (same test, opposite polarity)."""
-    ga = {(g[1][1]): g[0] for g in a.guards}
-    for pol, (_t, uid, _n) in b.guards:
-        if uid in ga and ga[uid] != pol:
-            return True
+    from ..semwalk import norm_guard
+
+    ga = {}
+    for g in a.guards:
+        for h in (g, norm_guard(g)):
+            ga.setdefault(h[1][1], set()).add(h[0])
+    for g in b.guards:
+        for pol, (_t, uid, _n) in (g, norm_guard(g)):
+            if uid in ga and (not pol) in ga[uid]:
+                return True
     return False
 
 
